@@ -208,13 +208,16 @@ func (r *runner) mismatch(m Mismatch) bool {
 // replayLine dispatches a stored request line to its stream.
 func (r *runner) replayLine(id, line string) {
 	switch {
-	case strings.HasPrefix(line, "P "), strings.HasPrefix(line, "W "), strings.HasPrefix(line, "E "), strings.HasPrefix(line, "S "):
-		edit, shared := false, false
-		for strings.HasPrefix(line, "E ") || strings.HasPrefix(line, "S ") {
-			if strings.HasPrefix(line, "E ") {
+	case strings.HasPrefix(line, "P "), strings.HasPrefix(line, "W "), strings.HasPrefix(line, "E "), strings.HasPrefix(line, "S "), strings.HasPrefix(line, "N "):
+		edit, shared, native := false, false, false
+		for strings.HasPrefix(line, "E ") || strings.HasPrefix(line, "S ") || strings.HasPrefix(line, "N ") {
+			switch {
+			case strings.HasPrefix(line, "E "):
 				edit, line = true, strings.TrimPrefix(line, "E ")
-			} else {
+			case strings.HasPrefix(line, "S "):
 				shared, line = true, strings.TrimPrefix(line, "S ")
+			default:
+				native, line = true, strings.TrimPrefix(line, "N ")
 			}
 		}
 		warm := ""
@@ -229,6 +232,7 @@ func (r *runner) replayLine(id, line string) {
 		p.WarmArch = warm
 		p.WarmEdit = edit
 		p.Shared = shared
+		p.NativeOrder = native && p.Endian == vd.HostEndian()
 		r.onePolicy(id, p, true)
 	case strings.HasPrefix(line, "B "):
 		goReply, _ := vd.ReplayBuilder(line)
@@ -270,6 +274,10 @@ func (r *runner) onePolicy(id string, p *vd.Policy, forceOracle bool) bool {
 	if p.Shared {
 		shown = "S " + shown
 		r.tag("layout:groups-are-windows-of-one-array")
+	}
+	if p.NativeOrder {
+		shown = "N " + shown
+		r.tag("byte-order:the-library's-own(no hook)")
 	}
 	if p.WarmEdit {
 		shown = "E " + shown
@@ -415,6 +423,9 @@ func (r *runner) onePolicy(id string, p *vd.Policy, forceOracle bool) bool {
 		if p.WarmArch != "" {
 			m.Note = "history: the same Policy value was assembled for " + p.WarmArch + " before (result discarded)"
 		}
+		if p.NativeOrder {
+			m.Note += " byte order: compiled with the library's own byte order, as production code is (no VerifSetNativeEndian call; N prefix); the model compiles for this machine's order (" + p.Endian + ");"
+		}
 		if p.Shared {
 			m.Note += " layout: the groups' name lists, conditional entries and condition lists are adjacent windows of one backing array each (S prefix);"
 		}
@@ -515,6 +526,10 @@ func (r *runner) policyStream(rng *rand.Rand) error {
 		if *profile != "limit" && *profile != "single" && rng.Intn(5) == 0 {
 			// a caller who slices one table into the groups of the policy
 			p.Shared = true
+		}
+		if *profile != "limit" && rng.Intn(6) == 0 {
+			// the library's own byte order (what production gets): this machine's, without the hook
+			p.NativeOrder, p.Endian = true, vd.HostEndian()
 		}
 		if r.onePolicy(fmt.Sprintf("%s#%d", *profile, i), p, false) {
 			break
